@@ -240,4 +240,8 @@ WITNESSES = [
      "old": "\tif (snprintf(str, len, \"%hhu.%hhu.%hhu.%hhu\"", "new": "\tif (snprintf(str, 16, \"%hhu.%hhu.%hhu.%hhu\""},
     {"id": "C19.w7-short-check-off-by-one", "rule": "C19.R2", "file": V6,
      "old": "\t} else if (i != 8) {", "new": "\t} else if (i < 7) {"},
+    {"id": "C19.w8-family-chosen-by-the-first-character", "rule": "C19.R2", "file": "rtrlib/lib/ip.c",
+     "old": "\tif (!strchr(str, ':')) {", "new": "\tif (str[0] >= '0' && str[0] <= '9' && strchr(str, '.')) {"},
+    {"id": "C19.w9-parser-consults-errno", "rule": "C19.R2", "file": V4,
+     "old": "\tuint8_t buff[4];\n\n\tif (sscanf(str,", "new": "\tuint8_t buff[4];\n\textern int *__errno_location(void);\n\n\tif (*__errno_location() == 34)\n\t\treturn -1;\n\tif (sscanf(str,"},
 ]
